@@ -691,6 +691,11 @@ func (vfs *OrefaFS) Remove(name string) error {
 		return &fs.PathError{Op: op, Path: name, Err: vfs.err.NoSuchFile}
 	}
 
+	// The root directory can't be removed.
+	if child == parent {
+		return &fs.PathError{Op: op, Path: name, Err: vfs.err.InvalidArgument}
+	}
+
 	parent.mu.Lock()
 	defer parent.mu.Unlock()
 
@@ -715,6 +720,8 @@ func (vfs *OrefaFS) Remove(name string) error {
 // returns nil (no error).
 // If there is an error, it will be of type *PathError.
 func (vfs *OrefaFS) RemoveAll(path string) error {
+	const op = "unlinkat"
+
 	if path == "" {
 		// fail silently to retain compatibility with previous behavior of RemoveAll.
 		return nil
@@ -731,6 +738,11 @@ func (vfs *OrefaFS) RemoveAll(path string) error {
 
 	if !childOk || !parentOk {
 		return nil
+	}
+
+	// The root directory can't be removed.
+	if child == parent {
+		return &fs.PathError{Op: op, Path: path, Err: vfs.err.InvalidArgument}
 	}
 
 	if child.mode.IsDir() {
